@@ -3,7 +3,7 @@ import XrsVerif.Proofs.ILProxRow
   Proofs/ILProxLines.lean -- step 4 (second half): one line of the top-down pass of the generated `_process_numpy`
   (`tdLine`) and one line of the bottom-up pass (`buLine`) refine `Prox.rowStep`.
 -/
-namespace XrsVerif.IL
+namespace XrsVerif.IL.Px
 open XrsVerif XrsVerif.Prox
 variable {F : Type} [Fl F]
 set_option linter.unusedSectionVars false
@@ -356,4 +356,4 @@ theorem buLine_refines (st : State F) (fuel n : Nat) (pan : List Tgt) (o : RowOu
     · rw [f6.fa _ (by decide), o5 j hj, o4 j hj, fa3 _ (by decide) (by decide)]
     · rw [o6 j hj, f5.fa _ (by decide), d4, fa3 _ (by decide) (by decide)]
 
-end XrsVerif.IL
+end XrsVerif.IL.Px
